@@ -6,6 +6,7 @@ package main
 // semantics-preserving edits (expectation "none").
 
 import (
+	"sync"
 	"fmt"
 	"os"
 	"os/exec"
@@ -42,7 +43,21 @@ func cmdSelftest(args []string) int {
 	sort.Strings(patches)
 	self, _ := os.Executable()
 	bad := 0
-	for _, pn := range patches {
+	par := 3
+	if v := os.Getenv("PVERIF_SELFTEST_PAR"); v != "" {
+		fmt.Sscanf(v, "%d", &par)
+	}
+	var mu sync.Mutex
+	var wg sync.WaitGroup
+	sem := make(chan struct{}, par)
+	failed := false
+	runOne := func(pn string) {
+		defer wg.Done()
+		sem <- struct{}{}
+		defer func() { <-sem }()
+		var outb strings.Builder
+		isBad := false
+		func() {
 		prop := strings.SplitN(pn, "-", 2)[0]
 		expect := ""
 		if data, err := os.ReadFile(filepath.Join(dir, strings.TrimSuffix(pn, ".patch")+".expect")); err == nil {
@@ -51,16 +66,17 @@ func cmdSelftest(args []string) int {
 		work, err := os.MkdirTemp("", "pverif-selftest-")
 		if err != nil {
 			fmt.Fprintln(os.Stderr, err)
-			return 2
+			isBad = true
+			return
 		}
 		repo := filepath.Join(work, "repo")
 		out := filepath.Join(work, "out")
 		cp := exec.Command("bash", "-c", fmt.Sprintf("mkdir -p %s && cd %s && git ls-files -z | xargs -0 cp --parents -t %s && cd %s && patch -p1 -s < %s", repo, envOr("PVERIF_SELFTEST_SRC", "/repo"), repo, repo, filepath.Join(dir, pn)))
 		if o, err := cp.CombinedOutput(); err != nil {
-			fmt.Printf("SELFTEST %-45s ERROR applying patch: %v %s\n", pn, err, truncate(string(o), 300))
-			bad++
+			fmt.Fprintf(&outb, "SELFTEST %-45s ERROR applying patch: %v %s\n", pn, err, truncate(string(o), 300))
+			isBad = true
 			os.RemoveAll(work)
-			continue
+			return
 		}
 		cmd := exec.Command(self, "check", prop, "--tier", "quick")
 		cmd.Env = append(os.Environ(), "PVERIF_REPO="+repo, "PVERIF_OUT="+out)
@@ -92,19 +108,32 @@ func cmdSelftest(args []string) int {
 		mark := "ok  "
 		if !ok {
 			mark = "FAIL"
-			bad++
+			isBad = true
 		}
 		first := ""
 		if len(viols) > 0 {
 			first = truncate(viols[0], 160)
 		}
-		fmt.Printf("SELFTEST %s %-45s exit=%d violations=%d (expected: %s) %s\n", mark, pn, code, len(viols), detail, first)
+		fmt.Fprintf(&outb, "SELFTEST %s %-45s exit=%d violations=%d (expected: %s) %s\n", mark, pn, code, len(viols), detail, first)
 		if !ok && len(viols) == 0 {
 			lines := strings.Split(strings.TrimSpace(string(o)), "\n")
-			fmt.Println("   last output:", truncate(lines[len(lines)-1], 300))
+			fmt.Fprintln(&outb, "   last output:", truncate(lines[len(lines)-1], 300))
 		}
 		os.RemoveAll(work)
+			}()
+		mu.Lock()
+		fmt.Print(outb.String())
+		if isBad {
+			bad++
+		}
+		mu.Unlock()
 	}
+	for _, pn := range patches {
+		wg.Add(1)
+		go runOne(pn)
+	}
+	wg.Wait()
+	_ = failed
 	fmt.Printf("selftest: %d mutants, %d unexpected\n", len(patches), bad)
 	if bad > 0 {
 		return 1
